@@ -562,8 +562,11 @@ theorem sumVars_applySubs {σ : List (Name × Arg)} {vars : List Name}
     rw [applySubs_upd (hfresh d (by simp)).1 (hfresh d (by simp)).2,
         ih (fun d' hd' => hfresh d' (List.mem_cons_of_mem _ hd'))]
 
-/-- `distribute_subs_contraction` (cnf.py:551-561): sound when the Contraction's binders are fresh for
-    the substitution (alpha-mangling) and every operand looks only at its declared inputs. -/
+/-- `distribute_subs_contraction` (cnf.py:551-561), for a binding LIST `σ` of any length applied
+    SIMULTANEOUSLY (`applySubs σ` looks every name up in the original environment: swaps, chains and
+    diagonals included): sound when the Contraction's binders are fresh for the substitution
+    (alpha-mangling) and every operand looks only at its declared inputs.  Each term receives one `Subs`
+    with the sub-list of the bindings it mentions, in the original order. -/
 theorem ruleSubsContr_sound {red bin : OpK} {vars : List Name} {ts : List (Ex R)} {σ : List (Name × Arg)}
     (hfresh : ∀ d ∈ vars, d ∉ σ.map (·.1) ∧ ∀ p ∈ σ, p.2 ≠ .var d)
     (hdep : ∀ t ∈ ts, DependsOn (fun env => t.eval (sr R) size env) t.ins)
@@ -602,6 +605,20 @@ theorem ruleSubsContr_sound {red bin : OpK} {vars : List Name} {ts : List (Ex R)
     rw [hpt e, evalList_eq_map]
   | null => simp only [redFold]; rw [hpt env, evalList_eq_map]
   | mul => simp only [redFold]; rw [hpt env, evalList_eq_map]
+
+/-- **Simultaneity is essential**: the swap `(x(i,j) · y(j))(i := j, j := i)`.  The rule as written
+    (one `Subs` with the whole binding list per term) gives the transpose `x(j,i) · y(i)`; pushing the two
+    bindings one after the other gives the diagonal `x(i,i) · y(i)` — a different value, and the input `j`
+    is lost.  (Seeded defect C08_3; `ruleSubsContr_sound` is the positive statement.) -/
+theorem subs_sequential_witness :
+    let size : Name → Nat := fun _ => 3
+    let x : Ex Nat := .leaf ["i", "j"] (fun env => 3 * env "i" + env "j")
+    let y : Ex Nat := .leaf ["j"] (fun env => env "j" + 1)
+    let t : Ex Nat := .subs (.contr .null .mul [] [x, y]) [("i", .var "j"), ("j", .var "i")]
+    let env : Env := fun n => if n = "i" then 1 else if n = "j" then 2 else 0
+    ∃ t₁ t₂, ruleSubsContr t = some t₁ ∧ ruleSubsContrSequential t = some t₂
+      ∧ t.eval (sr Nat) size env = 14 ∧ t₁.eval (sr Nat) size env = 14 ∧ t₂.eval (sr Nat) size env = 8 :=
+  ⟨_, _, rfl, rfl, by decide, by decide, by decide⟩
 
 /-- `unary_contract` (cnf.py:592-599): a unary operation that is a homomorphism for `bin`
     (negation for `+`, reciprocal for `*`) distributes over the terms. -/
